@@ -200,9 +200,25 @@ fn s2() {
     sys.send_local_message("p1", Message::new("X", "Tt:1;Tu:2")); 
     let r = sys.step_until_local_message_max_steps("p1", 1).map(|v| v.len()).map_err(|e| e.to_string()); println!("until_local max 1 (no local msgs): {:?} time={}", r, sys.time());
 }
+fn r1() {
+    use rand::{Rng, SeedableRng};
+    println!("== R1: twin Pcg64 predicts the simulator's draws");
+    let seed = 4242u64;
+    let mut twin = rand_pcg::Pcg64::seed_from_u64(seed);
+    let draws: Vec<f64> = (0..8).map(|_| twin.gen_range(0.0..1.0)).collect();
+    let mut sys = System::new(seed); sys.add_node("a"); sys.add_node("b"); sys.add_process("pa", sp(), "a"); sys.add_process("pb", sp(), "b");
+    sys.network().set_delays(1.0, 3.0);
+    sys.send_local_message("pa", Message::new("X", "Spb:1;Spb:2"));
+    // per send: draw0 drop, draw1 corrupt, draw2 count (>= dupl_rate=0 -> 1 copy), draw3 delay
+    let times: Vec<f64> = sys.sim().dump_events().iter().map(|e| e.time).collect();
+    let pred = vec![1.0 + draws[3] * 2.0, 1.0 + draws[7] * 2.0];
+    let mut p2 = pred.clone(); p2.sort_by(|a,b| a.partial_cmp(b).unwrap());
+    println!("observed arrival times {:?}", times);
+    println!("predicted (sorted)     {:?}  bit-exact: {}", p2, times.iter().zip(p2.iter()).all(|(a,b)| a.to_bits()==b.to_bits()));
+}
 fn main() {
     let which: Vec<String> = std::env::args().skip(1).collect();
     let all = which.is_empty();
-    let fs: Vec<(&str, fn())> = vec![("d1", d1), ("d2", d2), ("d3", d3), ("d4", d4), ("d5", d5), ("d7", d7), ("d8", d8), ("d9", d9), ("s1", s1), ("s2", s2)];
+    let fs: Vec<(&str, fn())> = vec![("d1", d1), ("d2", d2), ("d3", d3), ("d4", d4), ("d5", d5), ("d7", d7), ("d8", d8), ("d9", d9), ("s1", s1), ("s2", s2), ("r1", r1)];
     for (n, f) in fs { if all || which.iter().any(|w| w == n) { f(); } }
 }
